@@ -287,7 +287,14 @@ func (dsp *DataStreamProcessor) TriggerData() (records []*DataRecord) {
 func (dsp *DataStreamProcessor) TriggerDataSecondary(secondaryTrigList []FrameIndex) (secRecords []*DataRecord) {
 	stream := dsp.stream
 	for _, st := range secondaryTrigList {
-		secRecords = append(secRecords, dsp.triggerAt(int(st-stream.firstFrameIndex)))
+		i := int(st - stream.firstFrameIndex)
+		if start := i - dsp.NPresamples; start < 0 || start+dsp.NSamples > len(stream.rawData) {
+			// Happens only after the source lost data (frame numbers jumped while the source channel
+			// still owed a record): this channel no longer holds the samples. Skip the record rather
+			// than index outside the stream.
+			continue
+		}
+		secRecords = append(secRecords, dsp.triggerAt(i))
 	}
 	return secRecords
 }
